@@ -619,6 +619,14 @@ C11_Step(s, a, x) ==
                     /\ Present(x.s, a.k)
                     /\ x.s.ord[Len(x.s.ord)] = [e EXCEPT !.vs = a.vs, !.rec = new]
                     /\ (new <= e.rec => x.ev = <<>>)
+                    \* "evicting older entries only as far as needed" - and as far as needed:
+                    \* the shortest least-recently-used prefix of the OTHER entries after
+                    \* whose removal the re-measured entry fits
+                    /\ LET o       == DropAt(s.ord, i)
+                           j       == Len(x.ev)
+                           Fits(n) == ULeq(new + SumRec(DropN(o, n)), s.max)
+                       IN /\ j <= Len(o) /\ x.ev = TakeN(o, j)
+                          /\ Fits(j) /\ (j = 0 \/ ~Fits(j - 1))
 
 (* C12: iterator runs *)
 C12_Step(s, a, x) ==
